@@ -806,20 +806,27 @@ def comprehension(engine, st, node, kind):
                 return list_from_values(engine, st, vals)
             return Ty.mk_tuple(vals)
         q = z3.Int(f"cq!{node.lineno}.{node.col_offset}")
+        # safety obligations raised while the element / filter expressions are evaluated
+        # hold for elements of the iterable only: evaluate them under that guard
+        outer = st
+        st = st.clone()
+        st.assume(z3.And(0 <= q, q < it.length) if isinstance(it, PosIter) else it.dom[q])
         if isinstance(it, PosIter):
             bind_comp_target(engine, g.target, it.elem(q))
             conds = [engine.truth(st, engine.eval(st, c)) for c in g.ifs]
+            for c_ in conds:
+                st.assume(c_)
             if kind in ("list", "gen"):
                 if conds:
                     raise Unsupported("filtered list comprehension")
                 val = engine.unbox_value(st, engine.eval(st, node.elt))
                 arrs = [z3.Lambda([q], c) for c in val.c]
-                return engine.alloc(st, V(Ty.List(val.t), [it.length] + arrs))
+                return engine.alloc(outer, V(Ty.List(val.t), [it.length] + arrs))
             if kind == "set":
                 val = engine.keyterm(engine.eval(st, node.elt))
                 k = z3.Int("cs!k")
                 body = z3.Exists([q], z3.And(0 <= q, q < it.length, *conds, val == k))
-                return engine.alloc(st, V(Ty.Set(Key), [z3.Lambda([k], body)]))
+                return engine.alloc(outer, V(Ty.Set(Key), [z3.Lambda([k], body)]))
             if kind == "dict":
                 # {key(q): value(q) for q in positions if cond(q)}: the last
                 # position with a given key wins (Python semantics); `pos` is the
@@ -834,16 +841,18 @@ def comprehension(engine, st, node, kind):
                 sub = lambda e, x: z3.substitute(e, (q, x))
                 dom = z3.Lambda([k], z3.Exists([q], z3.And(inr, kq == k)))
                 pos = z3.Function(f"cd!pos!{node.lineno}.{node.col_offset}!{engine.new_id()}", Ty.IntS, Ty.IntS)
-                st.assume(z3.ForAll([k], z3.Implies(dom[k], z3.And(
+                outer.assume(z3.ForAll([k], z3.Implies(dom[k], z3.And(
                     sub(inr, pos(k)), sub(kq, pos(k)) == k,
                     z3.ForAll([q2], z3.Implies(z3.And(pos(k) < q2, sub(inr, q2)), sub(kq, q2) != k)))), patterns=[pos(k)]))
                 # every position's key is in the domain (instantiation help)
-                st.assume(z3.ForAll([q], z3.Implies(inr, z3.And(dom[kq], pos(kq) >= q)) ))
-                return engine.alloc(st, V(t, [dom] + [z3.Lambda([k], sub(c, pos(k))) for c in val.c]))
+                outer.assume(z3.ForAll([q], z3.Implies(inr, z3.And(dom[kq], pos(kq) >= q)) ))
+                return engine.alloc(outer, V(t, [dom] + [z3.Lambda([k], sub(c, pos(k))) for c in val.c]))
             raise Unsupported("unsupported comprehension kind over a sequence")
         # SetIter: element is a function of the key q
         bind_comp_target(engine, g.target, it.elem(q))
         conds = [engine.truth(st, engine.eval(st, c)) for c in g.ifs]
+        for c_ in conds:
+            st.assume(c_)
         guard = z3.And(it.dom[q], *conds)
         if kind == "dict":
             kv = engine.eval(st, node.key)
@@ -852,11 +861,11 @@ def comprehension(engine, st, node, kind):
             val = engine.unbox_value(st, engine.eval(st, node.value))
             t = engine.hint_type(node, Ty.Map(Key, val.t))
             val = engine.coerce(val, t.v)
-            return engine.alloc(st, V(t, [z3.Lambda([q], guard)] + [z3.Lambda([q], c) for c in val.c]))
+            return engine.alloc(outer, V(t, [z3.Lambda([q], guard)] + [z3.Lambda([q], c) for c in val.c]))
         if kind == "set":
             kv = engine.eval(st, node.elt)
             if isinstance(kv, V) and kv.term.eq(q):
-                return engine.alloc(st, V(Ty.Set(Key), [z3.Lambda([q], guard)]))
+                return engine.alloc(outer, V(Ty.Set(Key), [z3.Lambda([q], guard)]))
             raise Unsupported("set comprehension re-keys its source")
         raise Unsupported("list comprehension over unordered container")
     finally:
